@@ -152,7 +152,12 @@ func (ex *Exec) havocMap(st *State, m Val, mt *types.Map) {
 		if so == "" {
 			so = "Int"
 		}
-		st.write("Mval."+mk+suffix, "(Array "+ks+" "+so+")", m.T, st.fresh("mval", "(Array "+ks+" "+so+")"))
+		nv := st.fresh("mval", "(Array "+ks+" "+so+")")
+		if isRefLike(t) {
+			// nothing stored in the map can be an object this path allocates later
+			st.assume("(forall ((k " + ks + ")) (! (> (select " + nv + " k) " + smtInt(int64(-(ex.nalloc+1))) + ") :pattern ((select " + nv + " k))))")
+		}
+		st.write("Mval."+mk+suffix, "(Array "+ks+" "+so+")", m.T, nv)
 	}
 	hv(mt.Elem(), "")
 }
